@@ -196,6 +196,23 @@ def c02_families(tier, seed, ids=None):
                                 fr(["p", "q", "r"], [call("cnt", I(a)), call("fromto", I(0), I(b)), call("cnt", I(c))],
                                    assign("acc", bin_("+", N("acc"), lst([N("p"), N("q"), N("r")])))), N("acc")], {"zip3": [a, b, c]}))
     special.append(mk(ids, [y(I(3)), GEN_DEFS["hy"], assign("f", fn([], block([assign("t", call("hy", I(4))), bin_("+", N("t"), I(1))]))), call("f")], {"naked": True}))
+    # early return out of a multi-iterator loop, then further loops (some with an empty first iterator) in the same statement
+    cnt3 = assign("cntt", fn([], block([y(I(1)), y(I(2)), y(I(3))])))
+    none = assign("none", fn([], I(0)))
+    for k_it in (2, 3):
+        vs_ = ["a", "b", "c"][:k_it]
+        for ret_at in (1, 2):
+            head = assign("head", fn(["ia", "ib", "ic"][:k_it], block([fr(vs_, [call(x) for x in ["ia", "ib", "ic"][:k_it]], iff(bin_("==", N("a"), I(ret_at)), ret(lst([N(v) for v in vs_])))), St("none")])))
+            for empty_pos in range(k_it + 1):
+                its = ["cntt"] * k_it
+                its2 = list(its)
+                if empty_pos < k_it:
+                    its2[empty_pos] = "none"
+                main = assign("main", fn([], block([assign("acc", lst([call("head", *[N(x) for x in its])])),
+                                                    fr(["x"], [call("cntt")], block([assign("h", call("head", *[N(x) for x in its2])), assign("acc", bin_("+", N("acc"), lst([N("x"), N("h")]))),
+                                                                                     fr(["yy"], [call("cntt")], assign("acc", bin_("+", N("acc"), lst([N("yy")]))))])),
+                                                    N("acc")])))
+                special.append(mk(ids, [cnt3, none, head, main, call("main"), call("main")], {"early_return_then_loops": [k_it, ret_at, empty_pos]}))
     out.append(("lockstep+naked", special, ("value",)))
     return out
 
@@ -229,6 +246,10 @@ def pure_family():
     fam.append(("closgen-args", [mkgen, mkscale, assign("sumg", fn(["g", "f"], block([assign("s", I(0)), fr(["e"], [call("g")], assign("s", bin_("+", N("s"), call("f", N("e"))))), N("s")]))),
                                  assign("sumtwo", fn(["n"], bin_("+", call("sumg", call("mkgen", I(0), N("n")), call("mkscale", I(1), I(100))), call("sumg", call("mkgen", I(1), N("n")), call("mkscale", I(3), I(0))))))],
                 call("sumtwo", I(3))))
+    probe = assign("probe", fn([], block([iff(bin_(">", N("gzero"), I(0)), block([assign("pa", I(1)), assign("pb", I(2)), assign("pc", I(3))])), bin_("+", bin_("+", call("toa", N("pa")), call("toa", N("pb"))), call("toa", N("pc")))])))
+    dq = assign("deepq", fn(["n"], ife(bin_("==", N("n"), I(0)), call("probe"), call("deepq", bin_("-", N("n"), I(1))))))
+    for n in (59, 61, 62, 63):
+        fam.append(("unassigned-locals-%d" % n, [assign("gzero", I(0)), probe, dq], call("deepq", I(n))))
     for n in (5, 130, 200):
         d, vs = wide_fn("wide%s" % "abc"[(5, 130, 200).index(n)], n, lambda vs: [assign("s", I(0)), fr(["i"], [call("fromto", I(0), N(vs[-1]))], assign("s", bin_("+", N("s"), I(1)))), bin_("+", N("s"), N(vs[0]))])
         fam.append(("wide%d" % n, [d], call(d["tgt"]["n"], I(2))))
@@ -267,7 +288,7 @@ def c03_families(tier, seed, ids=None):
     out = []
     ss = []
     for (fname, defs, c), (hname, hist) in itertools.product(fam, histories()):
-        if tier == "quick" and (shash((fname, hname, seed)) % 3 != 0) and hname not in ("none",) and not fname.startswith("closgen"):
+        if tier == "quick" and (shash((fname, hname, seed)) % 3 != 0) and hname not in ("none",) and not fname.startswith(("closgen", "unassigned")):
             continue
         items = list(defs) + list(hist)
         seen_defs = set()
